@@ -247,21 +247,31 @@ Definition stopper (rest : str) : Prop :=
   forall d r, rest = d :: r ->
     is_w d = false /\ is_sp d = false /\ d <> 59 /\ d <> 46 /\ d <> 40 /\ d <> 91.
 
+Lemma trailer_stop : forall rest, stopper rest -> trailer is_w is_sp rest = None.
+Proof.
+  intros rest Hstop. unfold trailer. destruct rest as [|d r]; [reflexivity|].
+  destruct (Hstop d r eq_refl) as (_ & Hsp & H1 & H2 & H3 & H4). cbn [skip_sp]. rewrite Hsp.
+  assert (d =? 59 = false) as -> by lia. assert (d =? 46 = false) as -> by lia.
+  assert (d =? 40 = false) as -> by lia. assert (d =? 91 = false) as -> by lia. reflexivity.
+Qed.
+
+Lemma tails_stop : forall f rest, stopper rest -> tails is_w is_sp (S f) rest = Some rest.
+Proof. intros f rest H. cbn [tails]. rewrite trailer_stop by exact H. reflexivity. Qed.
+
+Lemma firstn_prefix : forall (a b : str), firstn (length (a ++ b) - length b) (a ++ b) = a.
+Proof.
+  intros a b. rewrite app_length. replace (length a + length b - length b)%nat with (length a + 0)%nat by lia.
+  rewrite firstn_app_2. cbn [firstn]. apply app_nil_r.
+Qed.
+
 Lemma cut_ok_name : forall c w rest, is_id_start c = true -> forallb is_w w = true -> is_w 59 = false -> stopper rest ->
   cut_ok (c :: w) None rest.
 Proof.
   intros c w rest Hc Hw H59 Hstop. unfold cut_ok, semi_text, seg_expr. cbn [app]. rewrite app_nil_r. split.
-  - unfold C30Scan.parse_expr, parse_expr_rest. rewrite Hc.
+  - unfold C30Scan.parse_expr, parse_expr_rest, head1. rewrite Hc. cbn [Nat.eqb].
     rewrite skip_w_words; [|exact Hw | intros d r E; apply (Hstop d r E)].
-    assert (Ht : tails is_w is_sp (S (length (c :: w ++ rest))) rest = Some rest).
-    { cbn [tails]. destruct rest as [|d r]; [reflexivity|].
-      destruct (Hstop d r eq_refl) as (_ & Hsp & H1 & H2 & H3 & H4). cbn [skip_sp]. rewrite Hsp.
-      assert (d =? 59 = false) as -> by lia. assert (d =? 46 = false) as -> by lia.
-      assert (d =? 40 = false) as -> by lia. assert (d =? 91 = false) as -> by lia. reflexivity. }
-    rewrite Ht. f_equal. f_equal.
-    change (c :: w ++ rest) with ((c :: w) ++ rest). rewrite app_length.
-    replace (length (c :: w) + length rest - length rest)%nat with (length (c :: w) + 0)%nat by lia.
-    rewrite firstn_app_2. cbn [firstn]. apply app_nil_r.
+    rewrite tails_stop by exact Hstop. f_equal. f_equal.
+    change (c :: w ++ rest) with ((c :: w) ++ rest). apply firstn_prefix.
   - unfold strip_semi. destruct (rev (c :: w)) as [|z zs] eqn:E; [reflexivity|].
     destruct (z =? 59) eqn:Ez; [|reflexivity]. exfalso.
     assert (Hin : In z (c :: w)) by (apply in_rev; rewrite E; left; reflexivity).
@@ -279,22 +289,16 @@ Proof.
   - cbn [forallb] in Hw. apply andb_true_iff in Hw. destruct Hw as [Hc Hw]. cbn [app skip_sp]. rewrite Hc. apply IH; assumption.
 Qed.
 
-Lemma firstn_prefix : forall (a b : str), firstn (length (a ++ b) - length b) (a ++ b) = a.
-Proof.
-  intros a b. rewrite app_length. replace (length a + length b - length b)%nat with (length a + 0)%nat by lia.
-  rewrite firstn_app_2. cbn [firstn]. apply app_nil_r.
-Qed.
-
 Lemma cut_ok_name_semi : forall c w ws rest,
   is_id_start c = true -> forallb is_w w = true -> forallb is_sp ws = true -> (forall d, In d ws -> is_w d = false) ->
   is_w 59 = false -> is_sp 59 = false ->
   cut_ok (c :: w) (Some ws) rest.
 Proof.
   intros c w ws rest Hc Hw Hws Hwsw H59w H59s. unfold cut_ok, semi_text, seg_expr. split.
-  - unfold C30Scan.parse_expr, parse_expr_rest. cbn [app]. rewrite Hc.
+  - unfold C30Scan.parse_expr, parse_expr_rest, head1. cbn [app]. rewrite Hc. cbn [Nat.eqb].
     rewrite skip_w_words; [|exact Hw|].
     + assert (Ht : forall f, tails is_w is_sp (S f) ((ws ++ [59]) ++ rest) = Some rest).
-      { intro f. cbn [tails]. rewrite <- app_assoc. rewrite skip_sp_spaces; [|exact Hws|].
+      { intro f. cbn [tails]. unfold trailer. rewrite <- app_assoc. rewrite skip_sp_spaces; [|exact Hws|].
         - cbn [app]. rewrite Z.eqb_refl. reflexivity.
         - intros d r E. cbn [app] in E. inversion E; subst. exact H59s. }
       rewrite Ht. f_equal. f_equal.
@@ -306,15 +310,21 @@ Qed.
 (* $name(args) with args free of brackets and quotes, followed by a stopper *)
 Definition plain_char (c : Z) : bool := negb (is_bracket c || (c =? 39) || (c =? 34)).
 
-Lemma scan_br_plain : forall a rest fuel, forallb plain_char a = true -> (length a < fuel)%nat ->
+Lemma next_tok_plain : forall a c rest, forallb plain_char a = true -> is_bracket c = true ->
+  next_tok (a ++ c :: rest) = Some (Some c, rest).
+Proof.
+  induction a as [|x a IH]; intros c rest Hp Hc.
+  - cbn [app next_tok]. rewrite Hc. reflexivity.
+  - cbn [forallb] in Hp. apply andb_true_iff in Hp. destruct Hp as [Hx Hp].
+    unfold plain_char in Hx. apply negb_true_iff in Hx. apply orb_false_iff in Hx. destruct Hx as [Hx H34].
+    apply orb_false_iff in Hx. destruct Hx as [Hbr H39].
+    cbn [app next_tok]. rewrite Hbr, H39, H34. cbn [orb]. apply IH; assumption.
+Qed.
+
+Lemma scan_br_plain : forall a rest fuel, forallb plain_char a = true -> (0 < fuel)%nat ->
   scan_br fuel 40 41 0 (a ++ 41 :: rest) = Some rest.
 Proof.
-  induction a as [|c a IH]; intros rest fuel Hp Hf.
-  - destruct fuel as [|f]; [lia|]. reflexivity.
-  - destruct fuel as [|f]; [cbn in Hf; lia|]. cbn [forallb] in Hp. apply andb_true_iff in Hp. destruct Hp as [Hc Hp].
-    unfold plain_char in Hc. apply negb_true_iff in Hc. apply orb_false_iff in Hc. destruct Hc as [Hc H34].
-    apply orb_false_iff in Hc. destruct Hc as [Hbr H39].
-    cbn [app scan_br]. rewrite Hbr, H39, H34. cbn [orb]. apply IH; [exact Hp | cbn in Hf; lia].
+  intros a rest fuel Hp Hf. destruct fuel as [|f]; [lia|]. cbn [scan_br]. rewrite next_tok_plain by (exact Hp || reflexivity). reflexivity.
 Qed.
 
 Lemma cut_ok_call : forall c w a rest,
@@ -323,17 +333,14 @@ Lemma cut_ok_call : forall c w a rest,
   cut_ok ((c :: w) ++ 40 :: a ++ [41]) None rest.
 Proof.
   intros c w a rest Hc Hw Ha H40w H40s H59 Hstop. unfold cut_ok, semi_text, seg_expr. rewrite app_nil_r. cbn [app]. split.
-  - unfold C30Scan.parse_expr, parse_expr_rest. rewrite Hc.
+  - unfold C30Scan.parse_expr, parse_expr_rest, head1. rewrite Hc. cbn [Nat.eqb].
     replace ((w ++ 40 :: a ++ [41]) ++ rest) with (w ++ 40 :: a ++ 41 :: rest) by (rewrite <- !app_assoc; cbn [app]; rewrite <- app_assoc; reflexivity).
     rewrite skip_w_words; [|exact Hw | intros d r E; inversion E; subst; exact H40w].
     set (F := length (c :: w ++ 40 :: a ++ 41 :: rest)).
     assert (Ht : tails is_w is_sp (S F) (40 :: a ++ 41 :: rest) = Some rest).
-    { cbn [tails skip_sp]. rewrite H40s. cbn [Z.eqb Pos.eqb orb]. unfold closer. cbn [Z.eqb Pos.eqb].
+    { cbn [tails]. unfold trailer. cbn [skip_sp]. rewrite H40s. cbn [Z.eqb Pos.eqb orb]. unfold closer. cbn [Z.eqb Pos.eqb].
       rewrite scan_br_plain; [|exact Ha | rewrite app_length; cbn; lia].
-      unfold F. cbn [length tails]. destruct rest as [|d r]; [reflexivity|].
-      destruct (Hstop d r eq_refl) as (_ & Hsp & H1 & H2 & H3 & H4). cbn [skip_sp]. rewrite Hsp.
-      assert (d =? 59 = false) as -> by lia. assert (d =? 46 = false) as -> by lia.
-      assert (d =? 40 = false) as -> by lia. assert (d =? 91 = false) as -> by lia. reflexivity. }
+      unfold F. cbn [length]. apply tails_stop. exact Hstop. }
     subst F. rewrite Ht. f_equal. f_equal.
     replace (c :: w ++ 40 :: a ++ 41 :: rest) with ((c :: w ++ 40 :: a ++ [41]) ++ rest)
       by (cbn [app]; rewrite <- !app_assoc; cbn [app]; rewrite <- app_assoc; reflexivity).
